@@ -209,8 +209,38 @@ def run_one(chk, sseed):
         w.destroy()
 
 
+def shared_one(chk, sseed):
+    """transfers that wait for each other for another reason than the limit: byte-identical sibling indices share a by-hash
+    target (serialised by the per-path lock of fix 522f6c3); with failing attempts (retry sleeps) and nthreads at or below
+    the number of siblings every queued transfer must still start and the download must end"""
+    from props import l1
+    rng = random.Random(sseed)
+    sc = l1.gen_shared_scenario(rng)
+    replay = dict(l1.scenario_to_json(sc), scenario_seed=sseed)
+    for nthreads in (1, 2, rng.choice([1, 3])):
+        kind = rng.choice(["random", "fifo", "lifo"])
+        chooser = {"random": vloop.RandomChooser(rng.randrange(1 << 30)), "fifo": vloop.FifoChooser(), "lifo": vloop.LifoChooser()}[kind]
+        try:
+            r, files = l1.run_real(sc, chooser=chooser, nthreads=nthreads)
+        except vloop.Deadlock as ex:
+            chk.violation("deadlock:shared-target", dict(replay, nthreads=nthreads, schedule=kind),
+                          f"nthreads={nthreads}: download() never ends although no transfer is in progress: {ex}")
+            return
+        if r["max_inflight"] > nthreads:
+            chk.violation("inflight-exceeds-nthreads", dict(replay, nthreads=nthreads), f"{r['max_inflight']} transfers in flight with nthreads={nthreads}")
+        accounted = len(r["downloaded"]) + len(r["unmodified"]) + r["counters"][4] + r["counters"][6]
+        if accounted < len(sc["descs"]):
+            chk.violation("queued-transfer-never-finished", dict(replay, nthreads=nthreads),
+                          f"{len(sc['descs'])} files queued, only {accounted} accounted for (obtained + missing + failed)")
+        chk.count("shared_target_runs")
+    chk.evaluated(("shared", len(sc["descs"]), l1.classify(sc)), sample={"shared_target": True, "files": len(sc["descs"])})
+    chk.traces += 3
+
+
 def run(chk, tier, rng):
     n = 60 if tier == "quick" else 1500
+    for i in range(40 if tier == "quick" else 1000):
+        shared_one(chk, f"C14s-{chk.seed}-{i}")
     for i in range(n):
         run_one(chk, f"C14-{chk.seed}-{i}")
     chk.assumptions += ["asyncio runs a task atomically between awaits; no fairness of semaphore wake-ups is assumed (model) / "
@@ -221,7 +251,10 @@ def replay(rep):
     from core.check import Check
     chk = Check("C14", "quick", 0)
     chk.known = []
-    run_one(chk, rep["replay"]["scenario_seed"])
+    if str(rep["replay"]["scenario_seed"]).startswith("C14s-"):
+        shared_one(chk, rep["replay"]["scenario_seed"])
+    else:
+        run_one(chk, rep["replay"]["scenario_seed"])
     for sig, path, msg, _ in chk.violations:
         print(f"REPLAY VIOLATION {sig}: {msg}")
     return 1 if chk.violations else 0
